@@ -59,8 +59,24 @@ TECHNIQUE = "invariant monitor on Tpfa matrices + closed-form linear fields + MP
 TOL = 1e-9
 
 
-def _case(recipe, kmode, K, kseed, a, c, bc_mode, bc_seed, p_dir, pseed):
-    return {"grid": recipe, "kmode": kmode, "K": K, "kseed": int(kseed),
+def _tie(K, tie):
+    """Tie diagonal entries of a diagonal tensor (3, 3[, nc]): transversely isotropic /
+    isotropic tensors are the inputs special-cased fast paths are written for."""
+    K = np.array(K, dtype=float)
+    if not tie:
+        return K
+    pairs = {"xy": [(1, 0)], "yz": [(2, 1)], "xz": [(2, 0)], "xyz": [(1, 0), (2, 0)]}[tie]
+    for i, j in pairs:
+        K[i, i] = K[j, j]
+    return K
+
+
+def _case(recipe, kmode, K, kseed, a, c, bc_mode, bc_seed, p_dir, pseed, tie=None):
+    if tie and kmode.endswith("diag"):
+        K = [[float(v) for v in row] for row in _tie(K, tie)]
+    else:
+        tie = None
+    return {"grid": recipe, "kmode": kmode, "K": K, "kseed": int(kseed), "tie": tie,
             "a": [float(v) for v in a], "c": float(c), "bc_mode": bc_mode,
             "bc_seed": int(bc_seed), "p_dir": float(p_dir), "pseed": int(pseed)}
 
@@ -94,6 +110,14 @@ def floor(tier):
             out.append(_case(dict(r), kmode, fs.random_spd(rng, dim, 50.0, diagonal=True),
                              70 + i, a, -1.0 + i, modes[(i + j) % 4], 400 + 2 * i + j, 0.5,
                              500 + i))
+    # tied diagonal entries (kxx == kyy != kzz, ..., isotropic) on 3-D K-orthogonal grids
+    for i, tie in enumerate(["xy", "yz", "xz", "xyz"]):
+        r = KORTH_FLOOR[4 + i % 2]
+        a = rng.normal(size=3)
+        for j, kmode in enumerate(["const_diag", "hetero_diag"]):
+            out.append(_case(dict(r), kmode, fs.random_spd(rng, 3, 50.0, diagonal=True),
+                             90 + i, a, 0.3 * i, modes[(i + j) % 4], 600 + 2 * i + j, 0.5,
+                             700 + i, tie=tie))
     return out
 
 
@@ -112,9 +136,12 @@ def generate(rng, tier, i):
     a[dim:] = 0.0
     c = float(np.round(rng.normal() * 3, 3))
     mode = str(rng.choice(["all_dir", "mixed", "mixed", "mixed", "one_dir", "side"]))
+    tie = None
+    if kmode.endswith("diag") and rng.random() < 0.35:
+        tie = str(rng.choice(["xy", "yz", "xz", "xyz"]))
     return _case(r, kmode, K, int(rng.integers(0, 2**31)), a, c, mode,
                  int(rng.integers(0, 2**31)), float(rng.choice([0.15, 0.5, 0.85])),
-                 int(rng.integers(0, 2**31)))
+                 int(rng.integers(0, 2**31)), tie=tie)
 
 
 def _tensor(case, g, R):
@@ -125,6 +152,8 @@ def _tensor(case, g, R):
         return fs.tensor_from_matrix(K, g.num_cells), K
     Kc = fs.heterogeneous_spd(case["kseed"], dim, g.num_cells, 20.0,
                               diagonal=kmode.endswith("diag"))
+    if case.get("tie"):
+        Kc = _tie(Kc, case["tie"])
     Kc = np.einsum("ij,jkc,lk->ilc", R, Kc, R)
     return fs.tensor_from_cellwise(Kc), None
 
@@ -144,6 +173,9 @@ def check(case, mon):
               + ("+affine" if r.get("affine") is not None else "")
               + ("+rigid" if r.get("rigid") else ""))
     mon.klass("K:" + case["kmode"])
+    if case.get("tie"):
+        mon.klass("K-tie:" + case["tie"])
+        mon.count("tied_diagonal_tensors")
     mon.klass("bc:" + case["bc_mode"])
     mon.nontrivial(nc >= 2)
 
